@@ -1,1 +1,213 @@
-fn main() {}
+//! Engine R — stateless, deviation-bounded exploration of the real topic
+//! routers of /repo/server (pubsub::Topic, reqrep::Topic, FanoutMany, Router).
+
+mod families;
+mod harness;
+mod pubsub;
+mod reqrep;
+mod unit;
+mod world;
+
+use families::Scn;
+use harness::RViol;
+use serde_json::{json, Value};
+use std::time::{Duration, Instant};
+use vcommon::explore::{explore_all, Chooser, ExecReport, Job};
+use vcommon::report::{machinery_failure, Reporter, Violation};
+
+pub fn run_scn(scn: &Scn, ch: &mut Chooser, want_trace: bool) -> (ExecReport<RViol>, Vec<String>) {
+    match scn {
+        Scn::Ps(s) => {
+            let o = pubsub::run(s, ch, want_trace);
+            (o.rep, o.trace)
+        }
+        Scn::Rr(s) => {
+            let o = reqrep::run(s, ch, want_trace);
+            (o.rep, o.trace)
+        }
+        Scn::Unit(u) => unit::run(u, ch, want_trace),
+    }
+}
+
+fn main() {
+    let args: Vec<String> = std::env::args().collect();
+    if args.len() < 3 {
+        eprintln!("usage: routerlab <C01|C02|C08|C09|C10|C11|C16> <quick|thorough|replay> [file]");
+        std::process::exit(2);
+    }
+    vcommon::report::panics::install_quiet_hook();
+    tokio_stream::verif_seam::set(Some(world::seam));
+    let id = args[1].clone();
+    let tier = args[2].clone();
+    let r = std::panic::catch_unwind(move || {
+        if tier == "replay" {
+            replay(&id, args.get(3).map(|s| s.as_str()).unwrap_or(""));
+        } else if tier == "quick" || tier == "thorough" {
+            check(&id, &tier);
+        } else {
+            machinery_failure("tier must be quick, thorough or replay");
+        }
+    });
+    if r.is_err() {
+        let (m, l) = vcommon::report::panics::take_last().unwrap_or_default();
+        machinery_failure(&format!("engine panicked outside a guarded execution: {m} at {l}"));
+    }
+}
+
+fn check(id: &str, tier: &str) {
+    let specs = families::families(id, tier);
+    if specs.is_empty() {
+        machinery_failure("routerlab serves C01 C02 C08 C09 C10 C11 C16");
+    }
+    let mut rep = Reporter::new(id, tier, "model_checking");
+    let threads = std::thread::available_parallelism().map(|n| n.get()).unwrap_or(4).min(16);
+    let cap_s: u64 = std::env::var("VERIF_CAP_S").ok().and_then(|s| s.parse().ok()).unwrap_or(if tier == "quick" { 120 } else { 3000 });
+    let deadline = Instant::now() + Duration::from_secs(cap_s);
+    let prop: &'static str = families::static_id(id);
+
+    let jobs: Vec<Job<'_, RViol>> = specs
+        .iter()
+        .map(|sp| {
+            let scn = &sp.scn;
+            Job {
+                name: sp.scn.name(),
+                bound: sp.bound,
+                run: Box::new(move |ch: &mut Chooser| {
+                    tokio_stream::verif_seam::set(Some(world::seam));
+                    vcommon::report::panics::take_last();
+                    let (mut r, _) = run_scn(scn, ch, false);
+                    // one defect is reported under one property: keep only what this check owns
+                    r.violations.retain(|v| v.prop == prop);
+                    r
+                }),
+                key: Box::new(|v: &RViol| v.clause.clone()),
+            }
+        })
+        .collect();
+    let stats = explore_all(&jobs, threads, Some(deadline));
+
+    let mut fam = Vec::new();
+    let (mut execs, mut states, mut edges, mut traces, mut outcomes, mut contended, mut abandoned, mut cps) = (0u64, 0u64, 0u64, 0u64, 0u64, 0u64, 0u64, 0u64);
+    let mut capped = false;
+    let mut single_outcome = Vec::new();
+    for (st, sp) in stats.iter().zip(specs.iter()) {
+        if let Some(d) = &st.divergence {
+            machinery_failure(&format!("replay divergence (the closed system is not deterministic): {d}"));
+        }
+        execs += st.executions;
+        states += st.states.len() as u64;
+        edges += st.edges.len() as u64;
+        traces += st.traces.len() as u64;
+        outcomes += st.outcomes.len() as u64;
+        contended += st.contended;
+        abandoned += st.abandoned;
+        cps += st.choice_points;
+        capped |= st.capped;
+        if st.outcomes.len() == 1 && st.executions > 50 {
+            single_outcome.push(st.name.clone());
+        }
+        let mut cum = 0u64;
+        let by: Vec<u64> = st
+            .by_deviations
+            .iter()
+            .map(|n| {
+                cum += n;
+                cum
+            })
+            .collect();
+        fam.push(json!({
+            "family": st.name, "deviation_bound": sp.bound, "executions": st.executions,
+            "executions_with_at_most_k_deviations": by,
+            "tree_edges": st.choice_points, "max_choice_points": st.max_trace_len,
+            "distinct_states": st.states.len(), "distinct_transitions": st.edges.len(),
+            "distinct_event_traces": st.traces.len(), "distinct_outcomes": st.outcomes.len(),
+            "executions_with_contention": st.contended, "abandoned_spin_or_panic": st.abandoned,
+            "violating_executions": st.violating_executions, "capped": st.capped,
+        }));
+        for f in &st.found {
+            // re-run from the recorded choice sequence: must reproduce, trace is rendered here
+            let mut c1 = Chooser::from_indices(&f.choices);
+            tokio_stream::verif_seam::set(Some(world::seam));
+            let (r1, t1) = run_scn(&sp.scn, &mut c1, true);
+            let mut c2 = Chooser::from_indices(&f.choices);
+            let (_, t2) = run_scn(&sp.scn, &mut c2, true);
+            if t1 != t2 || c1.diverged.is_some() {
+                machinery_failure(&format!("violation {} in {} does not replay deterministically", f.v.clause, st.name));
+            }
+            if !r1.violations.iter().any(|v| v.prop == prop && v.clause == f.v.clause) {
+                machinery_failure(&format!("violation {} in {} did not reproduce on re-execution", f.v.clause, st.name));
+            }
+            let mut case = sp.scn.describe();
+            case["bound"] = json!(sp.bound);
+            rep.violation(Violation {
+                property: id.to_string(),
+                clause: f.v.clause.clone(),
+                fingerprint: format!("{id}:{}", f.v.clause),
+                message: format!("{} [family {}, {} deviation(s)]", f.v.msg, st.name, f.deviations),
+                case,
+                choices: f.choices.clone(),
+                deviations: f.deviations,
+                trace: t1,
+            });
+        }
+    }
+    // samples: the default execution and one deviating execution of the first and the last family
+    let mut samples: Vec<Value> = Vec::new();
+    for sp in [specs.first(), specs.last()].into_iter().flatten() {
+        let mut c = Chooser::from_indices(&[]);
+        let (_, t) = run_scn(&sp.scn, &mut c, true);
+        samples.push(json!({"family": sp.scn.name(), "choices": [], "trace": t}));
+        let dev: Vec<u32> = vec![0, 0, 1];
+        let mut c = Chooser::from_indices(&dev);
+        let (_, t) = run_scn(&sp.scn, &mut c, true);
+        samples.push(json!({"family": sp.scn.name(), "choices": c.indices(), "trace": t}));
+    }
+    let coverage = json!({
+        "states": states.max(1),
+        "transitions": edges.max(1),
+        "traces_validated_against_impl": execs,
+        "evaluations": execs,
+        "distinct_nontrivial": traces,
+        "rule": "stateless DFS over the real router future: every sequence of environment answers (ready / pending+wake / error / end for every mock sink and stream operation, scheduler order of poll / register / unblock / depart / close, StreamMap start index, Router hash order) with at most `deviation_bound` non-default choices, per family, enumerated exactly once each; states = distinct canonical environment-observable states (mock logs, flags, wake flag) seen at scheduler steps, transitions = distinct consecutive pairs; every execution runs the implementation itself, so every trace is validated against it; distinct_nontrivial = distinct event traces",
+        "exhaustive": !capped,
+        "capped_by_wall_clock": capped,
+        "families": fam,
+        "executions": execs,
+        "execution_tree_edges": cps,
+        "distinct_outcomes": outcomes,
+        "executions_with_contention": contended,
+        "abandoned_spin_or_panic": abandoned,
+        "families_with_single_outcome": single_outcome,
+        "samples": samples,
+        "explanation": if abandoned > 0 { "some executions were abandoned because a router poll exceeded the step budget or panicked; they yield no delivery verdict (reduced coverage)" } else { "no execution was abandoned" },
+    });
+    rep.assume("mock sinks/streams obey the futures Sink/Stream contracts; a blocked mock wakes the stored waker when the environment unblocks it");
+    rep.assume("bounded: topologies, script lengths and deviation bounds listed per family; nothing is claimed beyond them");
+    rep.assume("StreamMap start index and Router hash order are owned through the vendored tokio-stream seam and hook H1");
+    rep.finish(coverage);
+}
+
+fn replay(id: &str, path: &str) {
+    let s = std::fs::read_to_string(path).unwrap_or_else(|e| machinery_failure(&format!("cannot read {path}: {e}")));
+    let v: Violation = serde_json::from_str(&s).unwrap_or_else(|e| machinery_failure(&format!("cannot parse {path}: {e}")));
+    let scn = families::from_case(&v.case).unwrap_or_else(|| machinery_failure("replay file does not describe a routerlab scenario"));
+    println!("replaying {} clause={} scenario={}", v.property, v.clause, scn.name());
+    let mut c = Chooser::from_indices(&v.choices);
+    let (r, t) = run_scn(&scn, &mut c, true);
+    for l in &t {
+        println!("{l}");
+    }
+    if let Some(d) = &c.diverged {
+        machinery_failure(&format!("replay diverged: {d}"));
+    }
+    let prop = families::static_id(id);
+    let hits: Vec<&RViol> = r.violations.iter().filter(|x| x.prop == prop).collect();
+    if hits.is_empty() {
+        println!("now: no violation of {id} on this schedule");
+        std::process::exit(0);
+    }
+    for h in hits {
+        println!("now: VIOLATION reproduced: {} — {}", h.clause, h.msg);
+    }
+    std::process::exit(1);
+}
